@@ -73,6 +73,11 @@ type Run struct {
 
 func NewRun(prop, tier, level string, seed int64) *Run {
 	r := &Run{Prop: prop, Tier: tier, Level: level, Seed: seed, start: time.Now(), known: map[string]int{}, extra: map[string]any{}}
+	r.assumptions = []string{
+		"the reference models (mc/internal/model) and the read-only hook view are correct",
+		"values outside the stated alphabets behave like the representative chosen per branch condition in the code (DESIGN.md section 3)",
+		"checks were built with -tags verif from /repo's working tree at run time",
+	}
 	b, err := os.ReadFile(filepath.Join(Root, "known_findings.json"))
 	if err == nil {
 		if e := json.Unmarshal(b, &r.findings); e != nil {
